@@ -96,41 +96,82 @@ theorem localPart_prefixed (p : Text) (hp : ':' ∉ p) (rest : Text) :
 
 
 /-! ### detail ⇄ XML -/
+theorem kidsToKvs_append (a b : List Xml) : kidsToKvs (a ++ b) = kidsToKvs a ++ kidsToKvs b := by
+  induction a with
+  | nil => simp [kidsToKvs]
+  | cons x xs ih => simp [kidsToKvs, ih]
+
+theorem itemToXml_tag (k : Text) (d : Detail) : (itemToXml k d).tag = k := by
+  cases d <;> simp [itemToXml, Xml.tag]
+
+theorem entryToXml_ne_nil (k : Text) (d : Detail) : ∃ x xs, entryToXml k d = x :: xs := by
+  cases d with
+  | null => exact ⟨_, _, by simp only [entryToXml]; rfl⟩
+  | leaf t => exact ⟨_, _, by simp only [entryToXml]; rfl⟩
+  | node kvs => exact ⟨_, _, by simp only [entryToXml]; rfl⟩
+  | list items =>
+    cases items with
+    | nil => exact ⟨_, _, by simp only [entryToXml]; rfl⟩
+    | cons i is => exact ⟨_, _, by simp only [entryToXml, itemsToXml]; rfl⟩
+
+theorem kvsToXml_cons_ne_nil (k : Text) (d : Detail) (rest : List (Text × Detail)) :
+    ∃ x xs, kvsToXml ((k, d) :: rest) = x :: xs := by
+  obtain ⟨x, xs, h⟩ := entryToXml_ne_nil k d
+  exact ⟨x, xs ++ kvsToXml rest, by simp [kvsToXml, h]⟩
+
 mutual
-theorem xmlToDetail_detailToXml (k : Text) : ∀ d, xmlToDetail (detailToXml k d) = d.norm
-  | .null => by simp [detailToXml, xmlToDetail, Detail.norm]
-  | .leaf t => by simp [detailToXml, xmlToDetail, Detail.norm]
-  | .node [] => by simp [detailToXml, kvsToXml, xmlToDetail, Detail.norm]
+theorem xmlToDetail_itemToXml (k : Text) : ∀ d, xmlToDetail (itemToXml k d) = normItem d
+  | .null => by simp [itemToXml, xmlToDetail, normItem]
+  | .leaf t => by simp [itemToXml, xmlToDetail, normItem]
+  | .node [] => by simp [itemToXml, kvsToXml, xmlToDetail, normItem]
   | .node ((k', d) :: rest) => by
       have h := kidsToKvs_kvsToXml ((k', d) :: rest)
-      simp only [detailToXml, kvsToXml, xmlToDetail, Detail.norm] at h ⊢
-      rw [h]
+      obtain ⟨x, xs, hx⟩ := kvsToXml_cons_ne_nil k' d rest
+      rw [itemToXml, hx]
+      simp only [xmlToDetail, normItem]
+      rw [← hx, h]
+  | .list _ => by simp [itemToXml, xmlToDetail, normItem]
+theorem kidsToKvs_itemsToXml (k : Text) : ∀ is, kidsToKvs (itemsToXml k is) = normItems k is
+  | [] => by simp [itemsToXml, kidsToKvs, normItems]
+  | i :: is => by simp [itemsToXml, kidsToKvs, normItems, xmlToDetail_itemToXml k i, kidsToKvs_itemsToXml k is, itemToXml_tag]
+theorem kidsToKvs_entryToXml (k : Text) : ∀ d, kidsToKvs (entryToXml k d) = normEntry k d
+  | .null => by simp [entryToXml, kidsToKvs, xmlToDetail, normEntry, Xml.tag]
+  | .leaf t => by simp [entryToXml, kidsToKvs, xmlToDetail, normEntry, Xml.tag]
+  | .node [] => by simp [entryToXml, kvsToXml, kidsToKvs, xmlToDetail, normEntry, Xml.tag]
+  | .node ((k', d) :: rest) => by
+      have h := xmlToDetail_itemToXml k (.node ((k', d) :: rest))
+      simp only [itemToXml, normItem] at h
+      simp [entryToXml, kidsToKvs, normEntry, Xml.tag, h]
+  | .list [] => by simp [entryToXml, kidsToKvs, xmlToDetail, normEntry, Xml.tag]
+  | .list (i :: is) => by simp only [entryToXml, normEntry]; exact kidsToKvs_itemsToXml k (i :: is)
 theorem kidsToKvs_kvsToXml : ∀ kvs, kidsToKvs (kvsToXml kvs) = normKvs kvs
   | [] => by simp [kvsToXml, kidsToKvs, normKvs]
-  | (k, d) :: rest => by
-      have h1 := xmlToDetail_detailToXml k d
-      have h2 := kidsToKvs_kvsToXml rest
-      have h3 : (detailToXml k d).tag = k := by cases d <;> simp [detailToXml, Xml.tag]
-      simp [kvsToXml, kidsToKvs, normKvs, h1, h2, h3]
+  | (k, d) :: rest => by simp [kvsToXml, normKvs, kidsToKvs_append, kidsToKvs_entryToXml k d, kidsToKvs_kvsToXml rest]
 end
 
 mutual
-theorem norm_of_safe : ∀ d : Detail, d.xmlSafe = true → d.norm = d
-  | .null, _ => by simp [Detail.norm]
+theorem normEntry_of_safe (k : Text) : ∀ d : Detail, d.xmlSafe = true → normEntry k d = [(k, d)]
+  | .null, _ => by simp [normEntry]
   | .leaf t, h => by
       simp [Detail.xmlSafe] at h
-      simp [Detail.norm, h]
+      simp [normEntry, h]
   | .node [], h => by simp [Detail.xmlSafe] at h
-  | .node ((k, d) :: rest), h => by
+  | .node ((k', d) :: rest), h => by
       simp only [Detail.xmlSafe] at h
-      simp only [Detail.norm]
+      simp only [normEntry]
       rw [normKvs_of_safe _ h]
+  | .list _, h => by simp [Detail.xmlSafe] at h
 theorem normKvs_of_safe : ∀ kvs, kvsSafe kvs = true → normKvs kvs = kvs
   | [], _ => by simp [normKvs]
   | (k, d) :: rest, h => by
       simp only [kvsSafe, Bool.and_eq_true] at h
-      simp [normKvs, norm_of_safe d h.1, normKvs_of_safe rest h.2]
+      simp [normKvs, normEntry_of_safe k d h.1, normKvs_of_safe rest h.2]
 end
+
+theorem normKvs_append (a b : List (Text × Detail)) : normKvs (a ++ b) = normKvs a ++ normKvs b := by
+  induction a with
+  | nil => simp [normKvs]
+  | cons x xs ih => rcases x with ⟨k, d⟩; simp [normKvs, ih]
 
 /-! ### detail ⇄ dict document -/
 mutual
@@ -138,9 +179,13 @@ theorem docToDetail_detailToDoc : ∀ d, docToDetail (detailToDoc d) = d
   | .null => by simp [detailToDoc, docToDetail]
   | .leaf t => by simp [detailToDoc, docToDetail]
   | .node kvs => by simp [detailToDoc, docToDetail, docKvs_kvsToDoc kvs]
+  | .list items => by simp [detailToDoc, docToDetail, docItems_itemsToDoc items]
 theorem docKvs_kvsToDoc : ∀ kvs, docKvs (kvsToDoc kvs) = kvs
   | [] => by simp [kvsToDoc, docKvs]
   | (k, d) :: rest => by simp [kvsToDoc, docKvs, docToDetail_detailToDoc d, docKvs_kvsToDoc rest]
+theorem docItems_itemsToDoc : ∀ is, docItems (itemsToDoc is) = is
+  | [] => by simp [itemsToDoc, docItems]
+  | i :: is => by simp [itemsToDoc, docItems, docToDetail_detailToDoc i, docItems_itemsToDoc is]
 end
 
 /-! ### tags -/
